@@ -117,7 +117,7 @@ def hist_from_dump(path, var="hist"):
     return last[var]
 
 
-def tlc_goal(module, cfg_base, goal, workdir, *, workers=4, timeout=300, var="hist"):
+def tlc_goal(module, cfg_base, goal, workdir, *, workers=4, timeout=400, var="hist"):
     """Reach a coverage goal: `goal` is a trap invariant (~Goal); TLC's shortest counterexample is a
     behaviour reaching it. An unreachable goal is a tool error (vacuity guard)."""
     cfg = os.path.join(workdir, "goal-%s.cfg" % goal)
